@@ -28,7 +28,7 @@ class RandomSource(abc.ABC):
     ) -> T:
         acc_weights: list[int] = [int(x * 100000) for x in accumulate(weights)]
         total = acc_weights[-1]
-        rand_value: float = self.randint(0, total)
+        rand_value: float = self.randint(0, max(total - 1, 0))
 
         for choice, acc in zip(choices, acc_weights):
             if rand_value < acc:
